@@ -3,7 +3,7 @@ import random, hashlib
 from hypothesis import strategies as st
 from vlib.core import Prop
 from vlib.gen import h, u, hb, ub
-from vlib.ffi import lib, Buf
+from vlib.ffi import lib
 from vlib.ref import der as D
 from vlib.ref import sm2 as M
 from vlib.ref import modes as MO
@@ -67,7 +67,7 @@ _short = st.text(alphabet="abcdefghijklmnopqrstuvwxyz0123456789", min_size=1, ma
 _cn = st.one_of(_short, _short, _short, _short, st.text(alphabet="abcdefghijklmnopqrstuvwxyz0123456789 ", min_size=20, max_size=60))
 party_s = st.fixed_dictionaries({"d": _d, "how": st.sampled_from(["direct", "direct"] + C.PROVENANCE), "lam": st.integers(2, M.P - 1).map(h), "dseed": st.integers(1, 1 << 40),
                                  "cn": _cn, "slen": st.sampled_from([1, 1, 2, 4, 8, 12, 16, 19])})
-_issuer = st.sampled_from(["CA", "CA", "CA", "CA", "CA", "verif test CA - a certification authority with a long name"])
+_issuer = st.sampled_from(["CA", "CA", "CA", "CA", "CA", "CA", "verif test CA - a certification authority with a long name", "toolkit:ROOTCA"])
 _opt_info = st.one_of(st.none(), st.none(), st.binary(min_size=1, max_size=24).map(hb))
 _full = st.sampled_from([False] * 79 + [True])      # all bits of every listed field (fields of up to 96 bytes; longer ones sampled)
 _key16 = st.binary(min_size=16, max_size=16).map(hb)
@@ -156,10 +156,12 @@ def pick_bits(rnd, node, full, nval=None):
     return [("value", b) for b in sorted(pv)] + [("header", b) for b in sorted(ph)]
 
 
-def tamper(ctx, what, cms, fields, opener, case_id, rnd, full, padding_from=None):
+def tamper(ctx, what, cms, fields, opener, case_id, rnd, full, padding_from=None, unauthenticated=False):
     """fields: [(label, node)]; opener(cms) -> (ret, result dict or None).  Every flipped message must give != 1.
     padding_from: content length when the whole plaintext is one block - IV bits at or behind it only touch padding bytes
-    (a finding of its own: the padding check looks at the last byte only, so such a change goes unnoticed even under a signature)"""
+    (a finding of its own: the padding check looks at the last byte only, so such a change goes unnoticed even under a signature)
+    unauthenticated: EncryptedData / EnvelopedData carry no integrity check at all; a changed length octet of the encrypted
+    content that swallows a following field is the same root cause as a changed ciphertext bit and shares its key"""
     for label, node in fields:
         n = 0
         for part, bit in pick_bits(rnd, node, full):
@@ -167,7 +169,7 @@ def tamper(ctx, what, cms, fields, opener, case_id, rnd, full, padding_from=None
             r, res = opener(m)
             n += 1
             if r == 1:
-                key = "%s/%s-%s-accepted" % (what, label.split("#")[0], "flip" if part == "value" else "header-flip")
+                key = "%s/%s-%s-accepted" % (what, label.split("#")[0], "flip" if (part == "value" or (unauthenticated and label == "ciphertext")) else "header-flip")
                 if label == "iv" and part == "value" and padding_from is not None and (bit >> 3) - node.coff >= padding_from:
                     key = "%s/iv-flip-in-padding-accepted" % what
                 ctx.fail("%s returns 1 after flipping bit %d of byte %d (%s, %s octets); %d-byte message%s"
@@ -234,7 +236,7 @@ def attribute_refusal(ctx, l, what, r, limit_si, limit_ri, one_signer, ns, one_r
     ctx.fail("%s returns %d for arguments of its domain" % (what, r), what + "/refused")
 
 
-@P.sub("signed", signed_case, quick=320, thorough=10000)
+@P.sub("signed", signed_case, quick=450, thorough=25000)
 def signed(case, ctx):
     """cms_sign / cms_verify: content, certificates, every SignerInfo valid under its signer; tampering; zero SignerInfos"""
     l = L(ctx)
@@ -338,7 +340,7 @@ def open_checks(ctx, what, l, opener, rs, outsider, expect, case_id):
     return ok_direct
 
 
-@P.sub("enveloped", env_case, quick=320, thorough=10000)
+@P.sub("enveloped", env_case, quick=450, thorough=25000)
 def enveloped(case, ctx):
     """cms_envelop / cms_deenvelop: every recipient opens with a key object of any provenance; outsiders; tampering of encryptedKey, IV, ciphertext"""
     l = L(ctx)
@@ -371,7 +373,8 @@ def enveloped(case, ctx):
     j = rnd.randrange(len(rs))
     opener = lambda x: C.deenvelop(l, x, rs[j].direct, rs[j].cert)
     tamper(ctx, "cms/deenvelop", cms, [("encrypted-key#%d" % j, m.enc_keys()[j][1])], opener, case, rnd, case["full"])
-    tamper(ctx, "cms/deenvelop", cms, [("iv", m.iv), ("ciphertext", m.enc_content)], opener, case, rnd, case["full"])
+    two = [("iv", m.iv), ("ciphertext", m.enc_content)]
+    tamper(ctx, "cms/deenvelop", cms, two if case["fseed"] % 2 == 0 else two[::-1], opener, case, rnd, case["full"], unauthenticated=True)
 
 
 # ---------------------------------------------------------------------------------------------------
@@ -380,7 +383,7 @@ def enveloped(case, ctx):
 enc_case = st.fixed_dictionaries({"content": content_s, "key": _key16, "iv": _key16, "s1": _opt_info, "s2": _opt_info, "fseed": st.integers(0, 1 << 32), "full": _full})
 
 
-@P.sub("encrypted", enc_case, quick=400, thorough=10000)
+@P.sub("encrypted", enc_case, quick=600, thorough=40000)
 def encrypted(case, ctx):
     """cms_encrypt / cms_decrypt round trip == OpenSSL SM4-CBC; tampering of IV and ciphertext"""
     l = L(ctx)
@@ -411,7 +414,8 @@ def encrypted(case, ctx):
     r2, res2 = C.decrypt(l, cms, bytes([key[0] ^ 1]) + key[1:])
     ctx.note("cms_decrypt with another symmetric key returns %d" % r2)
     rnd = random.Random(case["fseed"])
-    tamper(ctx, "cms/decrypt", cms, [("iv", m.iv), ("ciphertext", m.enc_content)], lambda x: C.decrypt(l, x, key), case, rnd, case["full"])
+    two = [("iv", m.iv), ("ciphertext", m.enc_content)]
+    tamper(ctx, "cms/decrypt", cms, two if case["fseed"] % 2 == 0 else two[::-1], lambda x: C.decrypt(l, x, key), case, rnd, case["full"], unauthenticated=True)
 
 
 # ---------------------------------------------------------------------------------------------------
@@ -422,7 +426,7 @@ se_case = st.fixed_dictionaries({"crl": st.sampled_from([True, True, True, False
                                  "s2": _opt_info, "base": st.integers(0, 1 << 20), "seed": st.integers(1, 1 << 40), "fseed": st.integers(0, 1 << 32), "full": _full})
 
 
-@P.sub("signed_enveloped", se_case, quick=320, thorough=10000)
+@P.sub("signed_enveloped", se_case, quick=450, thorough=25000)
 def signed_enveloped(case, ctx):
     """cms_sign_and_envelop / cms_deenvelop_and_verify: round trip for every signer and recipient set; tampering of every listed field; zero SignerInfos"""
     l = L(ctx)
